@@ -112,12 +112,17 @@ func init() {
 					v.ID = id
 					id++
 					v.Family = "faultenum"
-					// The history ends with the faulted step: its observation
-					// (results, cookies, every persistence call, cache, store,
-					// the handler's session) shows what the fault left behind.
-					// States after a reported failure are outside the
-					// properties' quantifiers and are not explored further.
-					v.Steps = cloneSteps(base.Steps[:s+1])
+					// The faulted step's observation (results, cookies, every
+					// persistence call, cache, store, the handler's session)
+					// shows what the fault left behind; `tail` further steps of
+					// the base history are executed on that state and compared
+					// with the model (the oracles of properties that do not
+					// quantify over failures do not judge them).
+					end := s + 1 + r.argInt("tail", 0)
+					if end > len(base.Steps) {
+						end = len(base.Steps)
+					}
+					v.Steps = cloneSteps(base.Steps[:end])
 					v.Steps[s].Plan = p
 					variants = append(variants, v)
 				}
